@@ -8,8 +8,8 @@ and (put_object) the checksum record. "Takes effect completely or not at all":
 2. the destination holds the previous state or the complete new content, nothing else;
 3. a call that *answered with an error* has not replaced the destination; a call that answered OK has;
 4. the side files go with the content: if the destination is unchanged they are unchanged, if it is new they are
-   what a successful call leaves (metadata replaced iff the request carried metadata; checksum record replaced by
-   put_object).
+   what a successful call leaves (put_object: the request's metadata or none, and a new checksum record;
+   complete_multipart_upload: the upload's metadata if it has any).
 
 States are the harness's classification: destination `old|absent|dir` (= previous state) / `new` / `other`;
 side files `old|absent|blocked` (= previous state) / `new` / `other`.
@@ -49,7 +49,9 @@ structure Setup where
 
 /-- side files a successful call leaves -/
 def sidesAfterSuccess (s : Setup) : String × String :=
-  (if s.hasMeta && s.op ≠ "upload_part" then "new" else s.mdata0,
+  (if s.hasMeta && s.op ≠ "upload_part" then "new"
+   else if s.op = "put_object" then "absent"   -- a put without metadata leaves no metadata of a previous object
+   else s.mdata0,
    if s.op = "put_object" then "new" else s.info0)
 
 /-- the one drop position at which the temporary file exists but no `FileWriter` yet: the first suspension that can
@@ -57,7 +59,8 @@ def sidesAfterSuccess (s : Setup) : String × String :=
     complete_multipart_upload (after 2 suspensions for the upload record, 2 more if the upload carries metadata) -/
 def atCreate (s : Setup) (o : Obs) : Bool :=
   if s.op = "complete_multipart_upload" then o.phase = "P0" && o.pends = (if s.hasMeta then 5 else 3)
-  else o.phase = "B0"
+  else if s.op = "upload_part" then o.phase = "B0" && o.pends = 2   -- 1: reading the upload record
+  else o.phase = "B0" && o.pends = 1
 
 /-- where the fault was; `fine` distinguishes the drop positions before the rename -/
 def whereTag (s : Setup) (o : Obs) (fine : Bool) : String :=
